@@ -139,6 +139,10 @@ type sPlan struct {
 	Prelude bool `json:"prelude,omitempty"`
 	// Interleave (with Prelude): the earlier round signs the same tasks again after every batch of this round
 	Interleave bool `json:"interleave,omitempty"`
+	// PreludeHiccup (with Prelude): while the earlier round signs, the board refuses node 0's broadcasts of the signatures
+	// it reconstructed there. Whatever node 0 does about that, nothing of the earlier round may turn up in this
+	// round's messages or stores
+	PreludeHiccup bool `json:"prelude_hiccup,omitempty"`
 }
 
 // refMsg is one entry of the independent reference expansion of a proposal.
@@ -396,6 +400,11 @@ func runSigningCase(fx *world.Fixture, p sPlan, root string) *sigObs {
 		}
 		bz, _ := json.Marshal(req)
 		w.PostSigned(0, fx.RoundA, "event_signing_start", bz, "")
+		if p.PreludeHiccup && tag == "prelude" {
+			// (from now on and for the rest of the case: the board takes none of node 0's signature broadcasts for the
+			// earlier round, while everything else - also its broadcasts for the round under test - goes through)
+			w.Nodes[0].View.FailEvent, w.Nodes[0].View.FailEventCount, w.Nodes[0].View.FailRound = "signature_reconstructed", 1<<20, fx.RoundA
+		}
 		for round := 0; round < 40; round++ {
 			progress := w.PollAll()
 			for _, i := range fx.PartsA {
